@@ -211,7 +211,7 @@ def isinstance_chain(fn: ast.FunctionDef, subject: str) -> Tuple[List[Tuple[List
     return tests, final_raise
 
 
-def dispatch_fallthrough(repo: Repo, fi: Any, subject: str) -> Tuple[List[Tuple[List[str], ast.AST, List[str]]], int, List[str]]:
+def dispatch_fallthrough(repo: Repo, fi: Any, subject: str, direct: bool = False) -> Tuple[List[Tuple[List[str], ast.AST, List[str]]], int, List[str]]:
     """Paths of fi (private helpers of the class inlined) that end in a raise
     without a positive class test on the subject: [(negated class names,
     raise node, functions entered)], number of class tests seen, and the
@@ -222,8 +222,17 @@ def dispatch_fallthrough(repo: Repo, fi: Any, subject: str) -> Tuple[List[Tuple[
 
     entered: List[str] = []
 
+    # methods of the class the site calls itself, handing them the definition the subject belongs to
+    base_subj = subject.split(".")[0]
+    direct_callees = {c_.func.attr for c_ in ast.walk(fi.node) if isinstance(c_, ast.Call) and isinstance(c_.func, ast.Attribute) and isinstance(c_.func.value, ast.Name) and c_.func.value.id == "self" and any(isinstance(a_, ast.Name) and a_.id == base_subj for a_ in c_.args)} if direct else set()
+
     def inl(name: str, fn: ast.FunctionDef) -> bool:
-        ok = name.startswith("_") and not name.startswith("__")
+        ok = (name.startswith("_") and not name.startswith("__")) or name in direct_callees
+        if not ok and len(fn.args.args) == 1:
+            # a method that only hands out a table of (class, handler) rows
+            body_ = [b_ for b_ in fn.body if not (isinstance(b_, ast.Expr) and isinstance(b_.value, ast.Constant))]
+            if len(body_) == 1 and isinstance(body_[0], ast.Return) and isinstance(body_[0].value, (ast.Tuple, ast.List)) and body_[0].value.elts and all(isinstance(x_, ast.Tuple) for x_ in body_[0].value.elts):
+                ok = True
         if ok and name not in entered:
             entered.append(name)
         return ok
@@ -277,6 +286,18 @@ def a2(repo: Repo) -> RuleResult:
                 if hf is not None:
                     mapped.add((hf.rel, hf.qual))
         res.inst(part=part, function=qual, subject=subject, domain=dom, class_tests=ntests, fallthrough_paths=len(falls), helpers=entered)
+        if ntests == 0:
+            # the chain may have moved into a method the site calls with the same definition
+            try:
+                falls, ntests, entered = dispatch_fallthrough(repo, fi, subject, direct=True)
+                for h in entered:
+                    if fi.cls is not None:
+                        hf = m.lookup(fi.cls, h)
+                        if hf is not None:
+                            mapped.add((hf.rel, hf.qual))
+            except Inconclusive as e:
+                res.unsure(f"A2: {qual}: {e}")
+                continue
         if ntests == 0:
             res.unsure(f"A2: {qual}: no class test on `{subject}` found on any path")
             continue
